@@ -327,6 +327,25 @@ def run(ctx):
     # ---------------------------------------------------------------- B1 AST level + B2 traces on real files
     files = [(os.path.relpath(f, os.path.join(common.VERIF, "corpus")), open(f, encoding="utf-8").read()) for f in corpus_files()]
     files.append(("constructs.incn", CONSTRUCTS))
+    # the construct corpus (one file per AST node kind / optional field) and programs of the TLC-enumerated universes:
+    # statement match in both arm syntaxes, comprehensions, closures, f-strings, methods, field / index assignment ...
+    for f in sorted(glob.glob(os.path.join(common.VERIF, "corpus", "constructs", "*.incn"))):
+        files.append(("constructs/" + os.path.basename(f), open(f, encoding="utf-8").read()))
+    from lib import pipeline
+    for mod, cfg, mk, tag in (("GenCtl", "GenCtl_quick", pipeline.ctl_case, "ctl"), ("GenColl", "GenColl_2", pipeline.coll_case, "coll")):
+        g = common.tlc(ctx, mod, cfg=cfg, workers=8, timeout=3000)
+        common.require_tlc_ok(ctx, g, mod)
+        grows = g["cases"]["CASE"]
+        for k, r in enumerate(rnd.sample(grows, min(len(grows), 12 if ctx.quick else 120))):
+            c = mk(r, k)
+            files.append((f"gen/{tag}{k}.incn", c["decls"].replace("{N}", "") + "\ndef main() -> None:\n" +
+                          "".join("    " + l.replace("{N}", "") + "\n" for l in c["body"])))
+    gj = common.tlc(ctx, "GenObj", cfg="GenObj_2", workers=8, timeout=3000, want_tags=("CASE", "DECLS"))
+    common.require_tlc_ok(ctx, gj, "GenObj")
+    for k, r in enumerate(rnd.sample(gj["cases"]["CASE"], 6 if ctx.quick else 60)):
+        c = pipeline.obj_case(r, k, gj["cases"]["DECLS"][0])
+        files.append((f"gen/obj{k}.incn", c["decls"].replace("{N}", "") + "\ndef main() -> None:\n" +
+                      "".join("    " + l.replace("{N}", "") + "\n" for l in c["body"])))
     for k, t in enumerate(TAILS):
         files.append((f"tail_{k:02d}.incn", t))
     lreqs = [{"op": "lex", "src": s, "detail": True} for _, s in files]
